@@ -19,4 +19,10 @@ META = {
         "level_text": "Every registered function is exercised in every command shape through ReadCmdType / ReplyCmdType / NotifyOrWriteCmdType and through the feature API on the wire; after encode+decode the function, payload type, partial/delete filters and the generated selectors and elements must come back deep-equal (nothing silently dropped). The grid is complete; values per cell are sampled (5 quick / 300 thorough). All CmdType/FilterType member types round-trip with reflectively generated values.",
         "level_note": "Trusted: reflect-based equivalence (nil==empty list; relative periods +-1.2 s), the JSON naming convention as the independent association of selectors/elements to functions. cmd.Function's content is not asserted (the statement does not fix it).",
     },
+    "C04": {
+        "technique": "property-based testing (rapid) with a validity predicate over (before, write, result, after) and a metamorphic independence relation; exhaustive sweep over small lists x flag states x shapes",
+        "design_ref": "DESIGN.md §4 C04",
+        "level_text": "Every write shape a peer can send is generated against lists mixing changeable, unchangeable and flag-less elements, sent over the wire by a bound peer and judged from the result datagram and DataCopy: protected elements deep-equal afterwards, flags never altered, error => data byte-identical, success => all addressed changeable elements show the change, unaddressed elements neither change nor influence the verdict (re-executed on two variant worlds). Exhaustive for lists up to 3 (quick) / 4 (thorough) elements with fixed field values; random beyond.",
+        "level_note": "Trusted: reference fold for P4, the harness's notion of 'addressed' (DESIGN §4 C04). Open finding F03 (full write replaces protected elements) is reported as KNOWN-FINDING by signature; any other predicate/shape combination is a violation.",
+    },
 }
